@@ -39,20 +39,20 @@ def run(prop, report, coverage):
     pat = re.compile(PATTERNS[prop])
     flt = (lambda name: bool(pat.search(name)))
     # ---- object backend (parametric, all values)
-    ores = C.pool_map(c05.shard, [(s, m) for s in objsym.systems() for m in (False, True)])
+    ores = objsym.concolic_map(c05.shard, [(s, m) for s in objsym.systems() for m in (False, True)])
     o_bad = [(oid, d) for r in ores for oid, d in r[1] if flt(objsym.opname(oid.split("/", 1)[1]))]
     o_n = sum(sum(v for k, v in r[2].items() if flt(k)) for r in ores)
     if prop in ("C01", "C02"):
         # the in-place operators of the object backend are public operations too: their value must not depend on the storage of either
         # operand - the per-step contracts of C15 (in-place == functional form, every pair of coordinate systems, symbolic values)
         from . import c15
-        ires = C.pool_map(c15.shard, [(s, m) for s in objsym.systems() for m in (False, True)])
+        ires = objsym.concolic_map(c15.shard, [(s, m) for s in objsym.systems() for m in (False, True)])
         o_bad += [(oid, d) for r in ires for oid, d in r[1] if "/inplace/" in oid]
         o_n += sum(r[0] for r in ires)
     if prop in ("C01", "C02"):
         # the named conversions (to_<system>, to_VectorND, like) with their keyword paths: the C04 lattice on symbolic values
         from . import c04
-        cres = C.pool_map(c04.shard, [(s, m) for s in objsym.systems() for m in (False, True)])
+        cres = objsym.concolic_map(c04.shard, [(s, m) for s in objsym.systems() for m in (False, True)])
         o_bad += [(oid, d) for r in cres for oid, d in r[1]]
         o_n += sum(r[0] for r in cres)
     # ---- Numba object backend: static contract on the glue (kernel receives the coordinates of the signature it was looked up for)
@@ -97,7 +97,7 @@ def run(prop, report, coverage):
         report.error(f"{prop}: the public-API glue part generated no obligations (operation filter matches nothing)")
     coverage["public_api_glue"] = dict(
         operations_pattern=PATTERNS[prop],
-        object_backend=dict(obligations=o_n, failed=len(o_bad), how="real methods/operators of the object backend on opaque tokens == live table entry in contract order (term identity, all values)"),
+        object_backend=dict(obligations=o_n, failed=len(o_bad), shards_re_run_with_concrete_values=sum(1 for r in ores if r[-1]), how="real methods/operators of the object backend on opaque tokens == live table entry in contract order (term identity, all values)"),
         numpy_backend_symbolic=dict(obligations=n_n, failed=len(n_bad), not_evaluable=sum(r[2] for r in nres), shapes=[list(x) for x in shapes],
                                     how="real NumPy backend on object-dtype token arrays: element i == object-backend result (term identity, all values; shapes bounded)"),
         array_lattice_bounded=dict(evaluations=d_n, failed=len(d_bad), how="BOUNDED run-time contracts against the object backend over the Engine D lattice (NumPy + Awkward layouts); "
